@@ -287,6 +287,10 @@ define(void)
 				p->flags |= PARAMVAR;
 			} else {
 				p->name = tokencheck(&tok, TIDENT, "of macro parameter name or '...'");
+				for (i = 0; &((struct macroparam *)params.val)[i] != p; ++i) {
+					if (strcmp(((struct macroparam *)params.val)[i].name, p->name) == 0)
+						error(&tok.loc, "duplicate macro parameter '%s'", p->name);
+				}
 			}
 		}
 		scan(t);  /* first token in replacement list */
